@@ -17,6 +17,8 @@ vars == <<l, failed, drift>>
 MarksDiffer(obs, pred) == \/ Len(obs.e) # Len(pred.e)
                           \/ \E k \in DOMAIN obs.e : obs.e[k] # 2 /\ obs.e[k] # pred.e[k]
 Drifts(e) ==
+  \* (a run longer than the line buffer is flushed in pieces: Edits models one call of infer_edits)
+  Len(e.ms) <= 33 /\ Len(e.ps) <= 33 /\
   LET R == InferEdits(e.re, e.thr, 0, [i \in DOMAIN e.ms |-> e.ms[i].t], [j \in DOMAIN e.ps |-> e.ps[j].t]) IN
   \/ \E i \in DOMAIN e.ms : MarksDiffer(e.ms[i], R.ms[i]) \/ ((\E k \in DOMAIN e.ms[i].e : e.ms[i].e[k] # 2) /\ e.ms[i].p # R.ms[i].p)
   \/ \E j \in DOMAIN e.ps : MarksDiffer(e.ps[j], R.ps[j]) \/ ((\E k \in DOMAIN e.ps[j].e : e.ps[j].e[k] # 2) /\ e.ps[j].p # R.ps[j].p)
